@@ -99,6 +99,9 @@ pub struct FixtureDatabase {
     pub definitions_version: Arc<std::sync::atomic::AtomicU64>,
     /// Number of workspace scans currently running (cache eviction waits for them).
     pub(crate) scans_in_progress: Arc<std::sync::atomic::AtomicUsize>,
+    /// Documents currently open in the editor (their cached text is the editor's buffer,
+    /// which may differ from the file on disk, so it must never be evicted).
+    pub(crate) open_documents: Arc<DashMap<PathBuf, ()>>,
     /// Cache of detected fixture cycles.
     /// Stores (definitions_version, cycles) to invalidate when definitions change.
     pub cycle_cache: Arc<DashMap<(), CycleCacheEntry>>,
@@ -143,6 +146,7 @@ impl FixtureDatabase {
             ast_cache: Arc::new(DashMap::new()),
             definitions_version: Arc::new(std::sync::atomic::AtomicU64::new(0)),
             scans_in_progress: Arc::new(std::sync::atomic::AtomicUsize::new(0)),
+            open_documents: Arc::new(DashMap::new()),
             cycle_cache: Arc::new(DashMap::new()),
             available_fixtures_cache: Arc::new(DashMap::new()),
             imported_fixtures_cache: Arc::new(DashMap::new()),
@@ -306,6 +310,19 @@ impl FixtureDatabase {
         relevant.to_string_lossy().contains("site-packages")
     }
 
+    /// Note that the editor has opened a document: from now on its cached text is the
+    /// editor's buffer and is kept out of cache eviction until the document is closed.
+    pub fn document_opened(&self, file_path: &Path) {
+        let canonical = self.get_canonical_path(file_path.to_path_buf());
+        self.open_documents.insert(canonical, ());
+    }
+
+    /// Note that the editor has closed a document.
+    pub fn document_closed(&self, file_path: &Path) {
+        let canonical = self.get_canonical_path(file_path.to_path_buf());
+        self.open_documents.remove(&canonical);
+    }
+
     /// Remove all cached data for a file.
     /// Called when a file is closed or deleted to prevent unbounded memory growth.
     pub fn cleanup_file_cache(&self, file_path: &Path) {
@@ -370,9 +387,12 @@ impl FixtureDatabase {
 
             // Remove ~25% of entries to avoid frequent re-eviction
             let to_remove_count = self.file_cache.len() / 4;
+            // Never an open document: its text exists nowhere else (the file on disk may
+            // lack the user's unsaved changes)
             let to_remove: Vec<PathBuf> = self
                 .file_cache
                 .iter()
+                .filter(|entry| !self.open_documents.contains_key(entry.key()))
                 .take(to_remove_count)
                 .map(|entry| entry.key().clone())
                 .collect();
